@@ -160,6 +160,39 @@ func c11Items(seed int64, tier string) []*c11Item {
 			id++
 		}
 	}
+	// services usually read `with` as a DID (schema.DIDString): resources that are truncated / degenerate DID strings,
+	// in the invocation and in a proof, next to a well-formed sibling invocation.  No model case (the model's resource
+	// reader is the harness's own): the process must survive and answer.
+	for _, ws := range []string{"did:key:", "did:", "did:key", "did:key:z", "did", "", ":", "did:key:zz", "did:web:", "did::", "did:key:z6Mk", "did:key:\x00"} {
+		for _, tgt := range []string{"c_inv", "c_d2"} {
+			b, _ := c11Base(seed, id)
+			for can := range b.Handlers {
+				b.Handlers[can] = "ok+didwith"
+			}
+			for _, sp := range b.W.Specs {
+				if sp.Name == tgt {
+					// properly signed over that resource (a tampered token is refused before its resource is read)
+					for ci := range sp.Caps {
+						sp.Caps[ci].With = ws
+					}
+				}
+			}
+			items = append(items, &c11Item{Kind: "batch-nomodel", Label: fmt.Sprintf("did-resource %q@%s", ws, tgt), Batch: b})
+			id++
+			// ... and written into the token after signing
+			b2, _ := c11Base(seed, id)
+			for can := range b2.Handlers {
+				b2.Handlers[can] = "ok+didwith"
+			}
+			for _, sp := range b2.W.Specs {
+				if sp.Name == tgt {
+					sp.Tamper, sp.TamperStr = "withstr", ws
+				}
+			}
+			items = append(items, &c11Item{Kind: "batch-nomodel", Label: fmt.Sprintf("did-resource-tampered %q@%s", ws, tgt), Batch: b2})
+			id++
+		}
+	}
 	// the execute list names an invocation more than once (adjacent and separated repeats)
 	for k := 0; k < 3; k++ {
 		b, _ := c11Base(seed, id)
@@ -259,7 +292,7 @@ func c11Child(args []string) int {
 		w.Flush()
 		t0 := time.Now()
 		switch it.Kind {
-		case "batch":
+		case "batch", "batch-nomodel":
 			if err := it.Batch.W.Build(); err != nil {
 				fmt.Fprintf(w, "\nSKIP %d build: %v\n", i, err)
 				w.Flush()
@@ -271,7 +304,9 @@ func c11Child(args []string) int {
 			for _, r := range obs.Rcpts {
 				cl = append(cl, r.Class)
 			}
-			os.WriteFile(filepath.Join(out, fmt.Sprintf("case_%06d.txt", i)), []byte(it.Batch.Coq(obs)), 0o644)
+			if it.Kind == "batch" {
+				os.WriteFile(filepath.Join(out, fmt.Sprintf("case_%06d.txt", i)), []byte(it.Batch.Coq(obs)), 0o644)
+			}
 			fmt.Fprintf(w, "\nDONE %d batch err=%q panic=%q ms=%d classes=%s\n", i, obs.ExecErr, obs.Panic, time.Since(t0).Milliseconds(), strings.Join(cl, ","))
 		case "raw":
 			if rawSrv == nil {
